@@ -93,9 +93,41 @@ macro_rules! entry2d_case {
                 ck(checks, format!("C14:{tag}:outside-window-untouched"), !okr || poison_left == total_big - flat_arr.len(), format!("{poison_left}"));
             }
             if qx.ndim() > 0 && qx.len() > 0 {
-                let mut f = Array::from_elem(qx.raw_dim().f(), konst_frac(0, 1)); f.assign(&qx);
-                let r = catch_unwind(AssertUnwindSafe(|| interp.interp_array(&f, &qy)));
-                ck(checks, format!("C13:{tag}:query-f-order"), matches!(&r, Ok(Ok(a)) if ids(a) == flat_arr), String::new());
+                let mut fx = Array::from_elem(qx.raw_dim().f(), konst_frac(0, 1)); fx.assign(&qx);
+                let mut fy = Array::from_elem(qy.raw_dim().f(), konst_frac(0, 1)); fy.assign(&qy);
+                let (rx, ry) = (reversed_holder(&qx), reversed_holder(&qy));
+                for (nm, a, b) in [("xs-f-order", &fx, &qy), ("ys-f-order", &qx, &fy), ("both-f-order", &fx, &fy), ("xs-reversed", &rx, &qy), ("ys-reversed", &qx, &ry), ("both-reversed", &rx, &ry), ("xs-f-ys-reversed", &fx, &ry)] {
+                    let r = catch_unwind(AssertUnwindSafe(|| interp.interp_array(a, b)));
+                    ck(checks, format!("C13:{tag}:query-{nm}"), matches!(&r, Ok(Ok(a)) if ids(a) == flat_arr), String::new());
+                }
+            }
+            if let (Some(a), Some(b)) = (qx.iter().next(), qy.iter().next()) {
+                let single = interp.interp(*a, *b).unwrap();
+                let s_ids = ids(&single);
+                if single.ndim() > 0 && !s_ids.is_empty() {
+                    let poison = var("POISON", 12345.0);
+                    let mut fbuf = Array::from_elem(single.raw_dim().f(), poison);
+                    let r = catch_unwind(AssertUnwindSafe(|| interp.interp_into(*a, *b, fbuf.view_mut())));
+                    ck(checks, format!("C13:{tag}:single-into-f-order-buffer"), matches!(r, Ok(Ok(()))) && ids(&fbuf) == s_ids, String::new());
+                    let mut rbuf = reversed_holder(&Array::from_elem(single.raw_dim(), poison));
+                    let r = catch_unwind(AssertUnwindSafe(|| interp.interp_into(*a, *b, rbuf.view_mut())));
+                    ck(checks, format!("C13:{tag}:single-into-reversed-buffer"), matches!(r, Ok(Ok(()))) && ids(&rbuf) == s_ids, String::new());
+                    if builtin {
+                        let want: Vec<usize> = single.shape().to_vec();
+                        let mut shapes: Vec<(String, Vec<usize>)> = Vec::new();
+                        for ax in 0..want.len() {
+                            let mut s2 = want.clone(); s2[ax] += 1; shapes.push((format!("axis{ax}+1"), s2));
+                            if want[ax] > 0 { let mut s2 = want.clone(); s2[ax] -= 1; shapes.push((format!("axis{ax}-1"), s2)); }
+                        }
+                        for p in 0..want.len() { for q2 in p + 1..want.len() { if want[p] != want[q2] { let mut s2 = want.clone(); s2.swap(p, q2); shapes.push((format!("swap{p}{q2}"), s2)); } } }
+                        for (nm, s2) in shapes {
+                            if let Ok(mut buf) = ArrayD::from_elem(IxDyn(&s2), poison).into_dimensionality::<<<$D as Dimension>::Smaller as Dimension>::Smaller>() {
+                                let r = catch_unwind(AssertUnwindSafe(|| interp.interp_into(*a, *b, buf.view_mut())));
+                                ck(checks, format!("C14:{tag}:single-into-reject[{nm}]"), !matches!(r, Ok(Ok(()))), format!("shape {:?} for required {:?}", s2, want));
+                            }
+                        }
+                    }
+                }
             }
             // xs / ys of different shapes never produce Ok (C14)
             if qx.ndim() > 0 {
@@ -245,8 +277,17 @@ macro_rules! fast1d {
                     "view" => { let it = Interp1DBuilder::new(base.view()).build().unwrap(); let a = it.interp_array(&q1.view()).unwrap().into_dyn(); let c1 = cast_calls(); let b = it.interp_array(&qd.view()).unwrap().into_dyn(); (a, b, c1, cast_calls()) }
                     _ => { let it = Interp1DBuilder::new(base.clone().into_shared()).build().unwrap(); let a = it.interp_array(&q1.clone().into_shared()).unwrap().into_dyn(); let c1 = cast_calls(); let b = it.interp_array(&qd.clone().into_shared()).unwrap().into_dyn(); (a, b, c1, cast_calls()) }
                 };
-                let same = fast.shape() == gen.shape() && fast.iter().zip(gen.iter()).all(|(a, b)| <$E as Elem>::same(*a, *b));
+                let mut same = fast.shape() == gen.shape() && fast.iter().zip(gen.iter()).all(|(a, b)| <$E as Elem>::same(*a, *b));
                 let counted = c0 == usize::MAX || (c1 - c0 == 2 && c2 == c1);
+                // a reversed-stride Ix1 query (contiguous, negative stride) must give the same rows on both paths
+                if storage == "owned" {
+                    let mut qr = Array1::from(q1.iter().rev().copied().collect::<Vec<_>>());
+                    qr.invert_axis(Axis(0));
+                    let it = Interp1DBuilder::new(base.clone()).build().unwrap();
+                    let a = it.interp_array(&qr).unwrap().into_dyn();
+                    let b = it.interp_array(&qr.clone().into_dyn()).unwrap().into_dyn();
+                    same &= a.shape() == b.shape() && a.iter().zip(b.iter()).all(|(x, y)| <$E as Elem>::same(*x, *y)) && a.iter().zip(gen.iter()).all(|(x, y)| <$E as Elem>::same(*x, *y));
+                }
                 (same, counted, c1.wrapping_sub(c0), c2.wrapping_sub(c1))
             }));
             match r {
@@ -283,6 +324,20 @@ macro_rules! fast2d {
                 Err(_) => ck($checks, tag, false, "panic".into()),
             }
         }
+        // xs and ys of DIFFERENT storage kinds: each is relabelled to its own type
+        let it = Interp2DBuilder::new(base.clone()).build().unwrap();
+        let want = it.interp_array(&qd, &pd).unwrap().into_dyn();
+        let (q1s, p1s) = (q1.clone().into_shared(), p1.clone().into_shared());
+        macro_rules! mixed { ($nm:expr, $a:expr, $b:expr) => {{
+            let r = catch_unwind(AssertUnwindSafe(|| it.interp_array($a, $b).map(|x| x.into_dyn())));
+            let ok = matches!(&r, Ok(Ok(g)) if g.shape() == want.shape() && g.iter().zip(want.iter()).all(|(x, y)| <$E as Elem>::same(*x, *y)));
+            ck($checks, format!("C19:fast-eq-general[2d,{},{},xs/ys storage {}]", <$E as Elem>::name(), $dn, $nm), ok, String::new());
+        }}; }
+        mixed!("owned/view", &q1, &p1.view());
+        mixed!("view/owned", &q1.view(), &p1);
+        mixed!("shared/view", &q1s, &p1.view());
+        mixed!("owned/shared", &q1, &p1s);
+        mixed!("view/shared", &q1.view(), &p1s);
     }};
 }
 macro_rules! fast_all_dims {
@@ -702,4 +757,59 @@ pub fn layouts(args: &[String], checks: &mut Vec<Check>) {
         }));
         ck(checks, format!("C13:data-strided-view-axis-strided-view{tag}"), r.map(|r| r == base).unwrap_or(false), String::new());
     }
+}
+
+
+// ------------------------------------------------------------------------------------------------
+// C09: interp_scalar == interp on 1-D (2-D) data, also exactly on knots and at the range ends
+// ------------------------------------------------------------------------------------------------
+pub fn scalar(args: &[String], checks: &mut Vec<Check>) {
+    let n: usize = str_arg(args, "n", "5").parse().unwrap();
+    let x = axis("x", n, 2);
+    let xs: Vec<f64> = x.iter().map(|s| shadow(*s)).collect();
+    let data: Array1<Sym> = Array1::from((0..n).map(|i| var(&format!("d{i}"), ((i * 7) % 5) as f64 - 1.5)).collect::<Vec<_>>());
+    let mut qs: Vec<Sym> = (0..n - 1).map(|i| var(&format!("q{i}"), xs[i] + 0.3125 * (xs[i + 1] - xs[i]))).collect();
+    for i in 0..n { qs.push(var(&format!("qk{i}"), xs[i])); }       // exactly on every knot (a different variable with the same value)
+    macro_rules! cmp { ($name:expr, $it:expr) => {{
+        let it = $it; let mut ok = true; let mut detail = String::new();
+        for q in qs.iter() {
+            let a = it.interp_scalar(*q); let b = it.interp(*q);
+            match (a, b) { (Ok(a), Ok(b)) => { if b.ndim() != 0 || b.iter().next().unwrap().0 != a.0 { ok = false; detail = format!("query {:?}", q); } }
+                           (Err(_), Err(_)) => {} _ => { ok = false; detail = format!("Ok/Err mismatch at {:?}", q); } }
+        }
+        ck(checks, format!("C09:scalar-eq-interp[{},n={n}]", $name), ok, detail);
+    }}; }
+    cmp!("linear", Interp1DBuilder::new(data.clone()).x(x.clone()).strategy(Linear::new()).build().unwrap());
+    cmp!("linear-extrap", Interp1DBuilder::new(data.clone()).x(x.clone()).strategy(Linear::new().extrapolate(true)).build().unwrap());
+    cmp!("spline", Interp1DBuilder::new(data.clone()).x(x.clone()).strategy(CubicSpline::new()).build().unwrap());
+    cmp!("default-axis", Interp1DBuilder::new(data.clone()).build().unwrap());
+    // custom strategy: interp_scalar must go through the strategy with the unmodified query and a 0-d target
+    reset_logs2();
+    let it = Interp1DBuilder::new(data.clone()).x(x.clone()).strategy(Rec::<2>).build().unwrap();
+    let mut ok = true;
+    for q in qs.iter() {
+        LOG.with(|l| l.borrow_mut().clear());
+        let r = it.interp_scalar(*q);
+        let log = LOG.with(|l| l.borrow().clone());
+        ok &= r.is_ok() && log.len() == 1 && log[0].0 == q.0 && log[0].2.is_empty();
+    }
+    ck(checks, format!("C18:scalar-goes-through-strategy[n={n}]"), ok, String::new());
+    FAIL_AT.with(|f| f.set(Some(CALLS.with(|c| c.get()))));
+    let r = it.interp_scalar(qs[0]);
+    ck(checks, format!("C18:error-passthrough[interp_scalar,n={n}]"), matches!(&r, Err(InterpolateError::OutOfBounds(m)) if m.starts_with("injected-")), String::new());
+    reset_logs2();
+    // 2-D
+    let ny = 4usize;
+    let y = axis("y", ny, 5);
+    let ys: Vec<f64> = y.iter().map(|s| shadow(*s)).collect();
+    let d2: Array2<Sym> = Array2::from_shape_fn((n, ny), |(i, k)| var(&format!("z{i}_{k}"), ((i * 3 + k * 5) % 7) as f64 * 0.5));
+    let it2 = Interp2DBuilder::new(d2).x(x.clone()).y(y.clone()).build().unwrap();
+    let mut ok = true; let mut detail = String::new();
+    for (i, q) in qs.iter().enumerate() {
+        let qy = if i % 2 == 0 { var(&format!("qy{i}"), ys[i % (ny - 1)] + 0.4 * (ys[i % (ny - 1) + 1] - ys[i % (ny - 1)])) } else { var(&format!("qyk{i}"), ys[i % ny]) };
+        match (it2.interp_scalar(*q, qy), it2.interp(*q, qy)) {
+            (Ok(a), Ok(b)) => { if b.ndim() != 0 || b.iter().next().unwrap().0 != a.0 { ok = false; detail = format!("query {i}"); } }
+            (Err(_), Err(_)) => {} _ => { ok = false; detail = format!("Ok/Err mismatch at query {i}"); } }
+    }
+    ck(checks, format!("C09:scalar-eq-interp[bilinear,n={n}]"), ok, detail);
 }
